@@ -77,6 +77,28 @@ Proof.
 Qed.
 
 (* convolve(mode='full') for any circular product cc that agrees with circ_conv *)
+Lemma full_spec_gen cc x w (o : option Z) :
+  (forall N a b k, (k < N)%nat -> nth k (cc N a b) 0 = circ_conv_at R rO radd rmul N a b k) ->
+  (forall N a b, length (cc N a b) = N) ->
+  (forall ns, o = Some ns -> (Z.of_nat (length x + length w) <= ns)%Z) ->
+  forall l,
+  match o with
+  | Some ns => Some (firstn (length x + length w)
+                       (cc (Z.to_nat ns) (pad x (Z.to_nat ns)) (pad w (Z.to_nat ns))))
+  | None => None
+  end = Some l ->
+  length l = (length x + length w)%nat /\
+  forall k, (k < length x + length w)%nat -> nth k l 0 = conv_direct_at R rO radd rmul x w k.
+Proof.
+  intros Hcc Hlen Ho l H. destruct o as [ns|]; [|discriminate].
+  injection H as <-. specialize (Ho ns eq_refl).
+  assert (HN : (length x + length w <= Z.to_nat ns)%nat) by lia.
+  split.
+  - rewrite firstn_length, Hlen. lia.
+  - intros k Hk. rewrite nth_firstn_lt by exact Hk. rewrite Hcc by lia.
+    apply circ_eq_direct; lia.
+Qed.
+
 Lemma convolve_full_spec cc x w :
   (forall N a b k, (k < N)%nat -> nth k (cc N a b) 0 = circ_conv_at R rO radd rmul N a b k) ->
   (forall N a b, length (cc N a b) = N) ->
@@ -84,14 +106,9 @@ Lemma convolve_full_spec cc x w :
   length l = (length x + length w)%nat /\
   forall k, (k < length x + length w)%nat -> nth k l 0 = conv_direct_at R rO radd rmul x w k.
 Proof.
-  intros Hcc Hlen l H. unfold convolve_full_with in H.
-  destruct (ns_optim (Z.of_nat (length x + length w))) as [ns|] eqn:E; [|discriminate].
-  injection H as <-. apply ns_optim_ge in E.
-  assert (HN : (length x + length w <= Z.to_nat ns)%nat) by lia.
-  split.
-  - rewrite firstn_length, Hlen. lia.
-  - intros k Hk. rewrite nth_firstn_lt by exact Hk. rewrite Hcc by lia.
-    apply circ_eq_direct; lia.
+  intros Hcc Hlen.
+  exact (full_spec_gen cc x w (ns_optim (Z.of_nat (length x + length w))) Hcc Hlen
+           (fun ns E => ns_optim_ge _ _ E)).
 Qed.
 
 Lemma circ_conv_nth N a b k : (k < N)%nat ->
@@ -167,7 +184,7 @@ Proof.
   pose proof (Nat.mod_upper_bound d N ltac:(lia)) as Hb.
   rewrite Hd in E. rewrite P_add, P_mul, Hom, P_one in E.
   destruct (Nat.eq_dec (d mod N) 0) as [H0|Hne]; [exact H0|].
-  exfalso. apply (Hprim (d mod N)); [lia|]. rewrite <- E. ring.
+  exfalso. apply (Hprim (d mod N)); [lia|]. transitivity (1 * pow om (d mod N)); [ring | exact E].
 Qed.
 
 Lemma pow_omi_N : pow omi N = 1.
@@ -224,17 +241,17 @@ Qed.
 
 (* circular convolution theorem: ifft(fft(a) * fft(b))[k] = sum_j a[j] b[(k - j) mod N] *)
 Lemma conv_theorem a b k : (k < N)%nat ->
-  nth k (spectral_conv R rO radd rmul om omi invN N a b) 0 =
+  nth k (spectral_conv R rO rI radd rmul om omi invN N a b) 0 =
   circ_conv_at R rO radd rmul N a b k.
 Proof.
   intros Hk. unfold spectral_conv, idft. rewrite nth_map_seq by exact Hk.
   set (c := fun j => ((k + N - j) mod N)%nat).
   set (T := fun j l m => get a j * get b l * (pow om (j * m) * pow om (l * m) * pow omi (m * k))).
-  assert (H1 : sum N (fun m => get (pmul R rmul (dft R rO radd rmul om N a) (dft R rO radd rmul om N b)) m
+  assert (H1 : sum N (fun m => get (pmul R rmul (dft R rO rI radd rmul om N a) (dft R rO rI radd rmul om N b)) m
                                  * pow omi (m * k)) =
                sum N (fun m => sum N (fun j => sum N (fun l => T j l m)))).
   { apply S_ext. intros m Hm. unfold getr at 1.
-    rewrite (nth_pmul R rO rmul) by (unfold dft; rewrite map_length, seq_length; exact Hm).
+    rewrite (nth_pmul R rO rI radd rmul rsub ropp Rth) by (unfold dft; rewrite map_length, seq_length; exact Hm).
     unfold dft. rewrite !nth_map_seq by exact Hm.
     rewrite (sum_mul_sum R rO rI radd rmul rsub ropp Rth).
     rewrite (sum_scale_r R rO rI radd rmul rsub ropp Rth). apply S_ext. intros j _.
@@ -255,17 +272,18 @@ Proof.
     - unfold c. apply Nat.mod_upper_bound. lia.
     - intros l Hl Hne. destruct (Nat.eqb_spec l (c j)); [contradiction|]. ring. }
   rewrite H2. rewrite <- (sum_scale_r R rO rI radd rmul rsub ropp Rth).
-  unfold circ_conv_at. fold (c).
-  transitivity (sum N (fun j => get a j * get b (c j)) * (invN * sum N (fun _ => 1))); [ring|].
+  unfold circ_conv_at. subst c. cbv beta.
+  set (S0 := sum N (fun j => get a j * get b ((k + N - j) mod N))).
+  transitivity (S0 * (invN * sum N (fun _ => 1))); [ring|].
   rewrite HinvN. ring.
 Qed.
 
-Lemma spectral_conv_length a b : length (spectral_conv R rO radd rmul om omi invN N a b) = N.
+Lemma spectral_conv_length a b : length (spectral_conv R rO rI radd rmul om omi invN N a b) = N.
 Proof. unfold spectral_conv, idft. now rewrite map_length, seq_length. Qed.
 
 (* inverse transform of the forward transform *)
 Lemma idft_dft x k : (k < N)%nat ->
-  nth k (idft R rO radd rmul omi invN N (dft R rO radd rmul om N x)) 0 = get x k.
+  nth k (idft R rO rI radd rmul omi invN N (dft R rO rI radd rmul om N x)) 0 = get x k.
 Proof.
   intros Hk. unfold idft. rewrite nth_map_seq by exact Hk.
   set (T := fun j m => get x j * (pow om (j * m) * pow om (0 * m) * pow omi (m * k))).
@@ -282,8 +300,8 @@ Proof.
         destruct (Nat.eqb_spec 0 (k - j)); destruct (Nat.eqb_spec j k); try lia; reflexivity.
       - apply Nat.leb_gt in E1.
         destruct (Nat.eqb_spec 0 (k + N - j)); destruct (Nat.eqb_spec j k); try lia; reflexivity. }
-  rewrite (sum_delta R rO rI radd rmul rsub ropp Rth N k) by
-    (try exact Hk; intros j Hj Hne; destruct (Nat.eqb_spec j k); [contradiction | ring]).
+  rewrite (sum_delta R rO rI radd rmul rsub ropp Rth N k); [ | exact Hk | ].
+  2:{ intros j Hj Hne. destruct (Nat.eqb_spec j k); [contradiction | ring]. }
   rewrite Nat.eqb_refl.
   transitivity (get x k * (invN * sum N (fun _ => 1))); [ring|]. rewrite HinvN. ring.
 Qed.
